@@ -36,6 +36,7 @@ type throwEvent struct {
 	activated       atomic.Bool
 	awaitingActions []chan IAction
 	once            sync.Once
+	running         atomic.Bool
 	satisfier       *logic.ThrowEventSatisfier
 }
 
@@ -59,6 +60,7 @@ func newThrowEvent(wr *wiring, element *schema.ThrowEvent, idGenerator id.IGener
 
 func (evt *throwEvent) run(ctx context.Context, sender tracing.ISenderHandle) {
 	defer sender.Done()
+	defer evt.running.Store(false)
 
 	for {
 		select {
@@ -88,6 +90,13 @@ func (evt *throwEvent) run(ctx context.Context, sender tracing.ISenderHandle) {
 }
 
 func (evt *throwEvent) ConsumeEvent(ev event.IEvent) (result event.ConsumptionResult, err error) {
+	// A node whose goroutine is not running holds no token and reads nothing from its
+	// inbox: the event cannot concern it, and queueing it would eventually block the
+	// caller (and every consumer behind this one) for good.
+	if !evt.running.Load() {
+		result = event.Consumed
+		return
+	}
 	evt.mch <- eventMessage{event: ev}
 	result = event.Consumed
 	return
@@ -102,6 +111,7 @@ func (evt *throwEvent) flow(ctx context.Context) {
 func (evt *throwEvent) Trigger(ctx context.Context) {
 	evt.once.Do(func() {
 		sender := evt.tracer.RegisterSender()
+		evt.running.Store(true)
 		go evt.run(ctx, sender)
 	})
 
@@ -111,6 +121,7 @@ func (evt *throwEvent) Trigger(ctx context.Context) {
 func (evt *throwEvent) NextAction(ctx context.Context, flow Flow) chan IAction {
 	evt.once.Do(func() {
 		sender := evt.tracer.RegisterSender()
+		evt.running.Store(true)
 		go evt.run(ctx, sender)
 	})
 
